@@ -18,7 +18,7 @@ fn hex_val(c: u8) -> Option<u8> {
 
 // ---------------------------------------------------------------------------------- JSON numbers
 crate::verif_harness! {
-    #[kani::unwind(6)]
+    #[kani::unwind(12)]
     fn c13_number_u64() {
         let v: u64 = kani::any();
         let got = num::deserialize(Value::Number(Number::from(v)));
@@ -33,7 +33,7 @@ crate::verif_harness! {
 }
 
 crate::verif_harness! {
-    #[kani::unwind(6)]
+    #[kani::unwind(12)]
     fn c13_number_i64() {
         let v: i64 = kani::any();
         let got = num::deserialize(Value::Number(Number::from(v)));
@@ -52,7 +52,7 @@ crate::verif_harness! {
 }
 
 crate::verif_harness! {
-    #[kani::unwind(6)]
+    #[kani::unwind(12)]
     fn c13_number_f64() {
         let f: f64 = kani::any();
         kani::assume(f.is_finite());
@@ -80,7 +80,7 @@ crate::verif_harness! {
 
 // optional chain id: null -> None, anything else as above
 crate::verif_harness! {
-    #[kani::unwind(6)]
+    #[kani::unwind(12)]
     fn c13_numopt() {
         let which: u8 = kani::any();
         kani::assume(which < 3);
@@ -174,8 +174,8 @@ macro_rules! number_string_harness {
     )*};
 }
 number_string_harness! {
-    c13_numstr_0 = 0, 6; c13_numstr_1 = 1, 6; c13_numstr_2 = 2, 6; c13_numstr_3 = 3, 7; c13_numstr_4 = 4, 8;
-    c13_numstr_5 = 5, 9; c13_numstr_6 = 6, 10;
+    c13_numstr_0 = 0, 12; c13_numstr_1 = 1, 12; c13_numstr_2 = 2, 12; c13_numstr_3 = 3, 12; c13_numstr_4 = 4, 12;
+    c13_numstr_5 = 5, 13; c13_numstr_6 = 6, 14;
 }
 
 // 2^256 boundary in hexadecimal: 64 digits always fit, 65 digits fit only with a leading zero.
@@ -259,13 +259,13 @@ macro_rules! bytes_field_harness {
     )*};
 }
 bytes_field_harness! {
-    c13_bytes_0 = 0, 6; c13_bytes_1 = 1, 6; c13_bytes_2 = 2, 6; c13_bytes_3 = 3, 7; c13_bytes_4 = 4, 8;
-    c13_bytes_5 = 5, 9; c13_bytes_6 = 6, 10; c13_bytes_8 = 8, 12;
+    c13_bytes_0 = 0, 12; c13_bytes_1 = 1, 12; c13_bytes_2 = 2, 12; c13_bytes_3 = 3, 12; c13_bytes_4 = 4, 12;
+    c13_bytes_5 = 5, 12; c13_bytes_6 = 6, 12; c13_bytes_8 = 8, 14;
 }
 
 // wrong JSON kinds for a byte field
 crate::verif_harness! {
-    #[kani::unwind(6)]
+    #[kani::unwind(12)]
     fn c13_bytes_wrong_kind() {
         let which: u8 = kani::any();
         kani::assume(which < 3);
@@ -298,11 +298,7 @@ fn check_bytearray<const N: usize, const L: usize>() {
     match &got {
         Ok(a) => {
             assert!(L == N, "fixed-size byte field of the wrong length accepted");
-            let mut i = 0;
-            while i < N {
-                assert!(a[i] == data[i]);
-                i += 1;
-            }
+            assert!(bytes_eq(&a[..], &data[..]));
         }
         Err(_) => assert!(L != N, "fixed-size byte field of the right length refused"),
     }
@@ -314,7 +310,7 @@ macro_rules! bytearray_harness {
     )*};
 }
 bytearray_harness! {
-    c13_slot_31 = (32, 31), 70; c13_slot_32 = (32, 32), 70; c13_slot_33 = (32, 33), 70; c13_slot_0 = (32, 0), 70;
+    c13_slot_31 = (32, 31), 36; c13_slot_32 = (32, 32), 36; c13_slot_33 = (32, 33), 37; c13_slot_0 = (32, 0), 36;
 }
 
 // Addresses (the `to` field): ethaddr's Deserialize as the derive code calls it
@@ -338,17 +334,13 @@ fn check_address<const L: usize>() {
     match &got {
         Ok(Some(a)) => {
             assert!(L == 20 && prefixed, "address that is not 0x + 20 bytes accepted");
-            let mut i = 0;
-            while i < 20 {
-                assert!(a.0[i] == data[i]);
-                i += 1;
-            }
+            assert!(bytes_eq(&a.0, &data[..]));
         }
         Ok(None) => panic!("address string deserialized to no recipient"),
         Err(_) => assert!(L != 20 || !prefixed, "well-formed address refused"),
     }
     core::mem::forget(got);
 }
-crate::verif_harness! { #[kani::unwind(50)] fn c13_address_19() { check_address::<19>() } }
-crate::verif_harness! { #[kani::unwind(50)] fn c13_address_20() { check_address::<20>() } }
-crate::verif_harness! { #[kani::unwind(50)] fn c13_address_21() { check_address::<21>() } }
+crate::verif_harness! { #[kani::unwind(25)] fn c13_address_19() { check_address::<19>() } }
+crate::verif_harness! { #[kani::unwind(25)] fn c13_address_20() { check_address::<20>() } }
+crate::verif_harness! { #[kani::unwind(25)] fn c13_address_21() { check_address::<21>() } }
